@@ -30,6 +30,7 @@ Bytes gen_document(Rng &rd, int tier, int &root_kind, Node *tree_out, bool &vali
     if (rd.chance(1, 6)) k.max_kids = 3 + (int)rd.below(10);
     { static const int WIDE[] = {17, 33, 65, 129, 255, 256, 257, 300}; if (rd.chance(1, tier ? 30 : 80)) k.wide = WIDE[rd.below(8)]; }
     root_kind = rd.chance(35, 100) ? 1 : 0;
+    { Rng rl = rd.fork("layout"); if (rl.chance(1, 4)) pick_name_family(rl, k); }
     Node root = gen_tree(rd, k, root_kind != 0);
     Bytes doc; encode(root, doc);
     if (need_out) *need_out = std::max(1, need_depth(root, root_kind != 0));
@@ -200,6 +201,8 @@ Plan sloppy_generate(uint64_t base, const std::string &prop, uint64_t index, int
     }
     p.faults.push_back("F8:faulty_caller");
     if (prop != "C16" && ro.chance(1, 5)) p.par["nocb"] = 1;      // an application without a token callback
+    if (prop == "C16" && r.fork("nocb").chance(1, 4)) p.par["nocb"] = 1;   // termination without a callback to count steps: decided by the CPU-time watchdog alone
+    { Rng rl = r.fork("layout"); if (rl.chance(1, 2)) p.par["lead"] = 1 + (int64_t)rl.below(15); }     // the message does not start on an allocator boundary
     if (prop == "C16" && ro.chance(1, 2)) p.par["unguarded"] = 1;   // termination is promised for ANY call sequence, also lookups issued outside an object
     if (ro.chance(1, 10)) p.par["locale"] = 1;
     if (getenv("VERIF_GUARD")) p.par["guard"] = 1;                 // delivered buffer ends at a PROT_NONE page (plain build cross-check of ASan)
@@ -212,6 +215,7 @@ Result sloppy_execute(const Plan &p, const ExecCtx &c) {
     Trace tr; tr.verbose = c.verbose;
     Sink sink; sink.own = c.prop; sink.cnt = &r.cnt;
     PSession ps(tr, sink, r.cnt);
+    ps.lead = (int)p.P("lead");
     ps.setup(p.max_depth, p.prefill, p.doc, p.root != 0, (int)p.P("guard", 0));
     ps.use_cb = !p.P("nocb");
     if (p.P("unguarded")) ps.guard_lookups = false;
